@@ -173,6 +173,65 @@ pub fn c01(r: &mut Rng, sz: &Sizes, out: &mut Vec<String>) {
     }
 }
 
+pub fn c06(r: &mut Rng, sz: &Sizes, out: &mut Vec<String>) {
+    for d in docs(r, sz) {
+        for style in 0..4 {
+            if style == 0 || r.chance(1, 3) {
+                out.push(format!("inferdoc\t{}", hex_doc(&d, style)));
+                out.push(format!("inferv\t{}", hex_doc(&d, style)));
+            }
+        }
+    }
+}
+
+pub fn c08(r: &mut Rng, sz: &Sizes, out: &mut Vec<String>) {
+    merger_ops(r, sz, out);
+    let mut pool: Vec<J> = vec![
+        J::Null, J::Bool(true), J::Num("1".into()), J::Str("s".into()), J::Arr(vec![]), J::Obj(vec![]),
+        J::Arr(vec![J::Arr(vec![]), J::Num("1".into())]),
+        J::Arr(vec![J::Num("1".into()), J::Num("2".into())]),
+        J::Arr(vec![J::Num("1".into()), J::Str("a".into())]),
+        J::Arr(vec![J::Null, J::Num("1".into())]),
+        J::Obj(vec![("a".into(), J::Num("1".into()))]),
+    ];
+    for i in 0..sz.docs / 4 {
+        pool.push(rand_doc(r, i % 4, &KEYS[..7]));
+    }
+    let fixed = 11;
+    for i in 0..fixed {
+        for j in 0..fixed {
+            out.push(format!("p_c08\t{}\t{}\t!ok *", hex_doc(&pool[i], 0), hex_doc(&pool[j], 0)));
+        }
+    }
+    for _ in 0..sz.docs {
+        let d = r.pick(&pool).clone();
+        let e = if r.chance(1, 3) { tweak(r, &d, &KEYS[..7]) } else { r.pick(&pool).clone() };
+        out.push(format!("p_c08\t{}\t{}\t!ok *", hex_doc(&d, r.below(4)), hex_doc(&e, r.below(4))));
+    }
+}
+
+pub fn c17(r: &mut Rng, sz: &Sizes, out: &mut Vec<String>) {
+    fn subdocs(d: &J, out: &mut Vec<J>) {
+        out.push(d.clone());
+        match d {
+            J::Arr(xs) => xs.iter().for_each(|x| subdocs(x, out)),
+            J::Obj(ms) => ms.iter().for_each(|(_, x)| subdocs(x, out)),
+            _ => {}
+        }
+    }
+    for d in docs(r, sz) {
+        let mut subs = Vec::new();
+        subdocs(&d, &mut subs);
+        for (i, s) in subs.iter().enumerate() {
+            if i < 12 {
+                out.push(format!("inferdoc\t{}", hex_doc(s, r.below(4))));
+                out.push(format!("inferv\t{}", hex_doc(s, 0)));
+            }
+        }
+        out.push(format!("p_c17\t{}\t!ok", hex_doc(&d, 0)));
+    }
+}
+
 pub fn generate(prop: &str, tier: &str, seed: u64) -> Vec<String> {
     let mut r = Rng(seed ^ 0x5eed_0000 ^ (prop.bytes().fold(0u64, |a, b| a * 131 + b as u64)));
     let sz = sizes(tier);
@@ -181,6 +240,9 @@ pub fn generate(prop: &str, tier: &str, seed: u64) -> Vec<String> {
         "C10" => c10(&mut r, &sz, &mut out),
         "C01" => c01(&mut r, &sz, &mut out),
         "C02" => c02(&mut r, &sz, &mut out),
+        "C06" => c06(&mut r, &sz, &mut out),
+        "C08" => c08(&mut r, &sz, &mut out),
+        "C17" => c17(&mut r, &sz, &mut out),
         "core" => core(&mut r, &sz, &mut out),
         _ => {}
     }
